@@ -25,10 +25,11 @@ REGION_ALTS = {"body": [2, 3, "ov", "ov+2", 9], "mbb": [0, 1, "ov", 8], "vbb": [
 
 def bounds(tier):
     return dict(enzymes="all distinct 5'-overhang single-cut geometries with an unambiguous 5-7 nt site (computed at run time)",
-                k=[1, 2, 3], schemes=[0, 1], junctions=["plain", "palindromic@0", "palindromic@last"],
+                k=[1, 2, 3], schemes=[0, 1], spelling="each participant in lower case in turn, and all (bound 1)", junctions=["plain", "palindromic@0", "palindromic@last"],
                 region_alternatives=REGION_ALTS, deviation_bound=2,
                 pairs=("(region length, rotation of its plasmid), (permutation, rotation of one plasmid)" if tier == "quick"
                        else "all pairs of axes; rotation x rotation over structure-window rotations"),
+                overhang_words="BsaI, BbsI, BsmBI, BspQI, k=1: every word in each junction role (quick) / every ordered pair (thorough)",
                 content_exhaustive=dict(ov=[1, 2], overhang_assignments="all over ACGT^ov for which the model predicts the full chain",
                                         body_len=2 if tier == "quick" else 3,
                                         k2_bodies=["AC", "GT", "CA", "TG"] if tier == "quick" else "all of ACGT^2"))
@@ -37,7 +38,7 @@ def bounds(tier):
 def goals(tier):
     return ["every-enzyme:" + n for n, _ in gen.enzymes()] + ["k=3", "origin-in-site", "origin-in-filler", "origin-in-overhang", "origin-in-target",
             "origin-in-backbone", "non-identity-permutation", "palindromic-junction", "min-body", "empty-backbone",
-            "empty-placeholder", "content-exhaustive"]
+            "empty-placeholder", "content-exhaustive", "every-overhang-word", "lower-case-participant"]
 
 
 def base_points(tier):
@@ -60,6 +61,13 @@ def units(tier):
             for k in (1, 2):
                 for w0 in ["".join(t) for t in itertools.product("ACGT", repeat=g.ov)]:
                     us.append(("content", (name, k, w0)))
+    # every overhang word of the 3- and 4-nt kit geometries in each junction role (k = 1); thorough: every pair
+    for name in ("BsaI", "BbsI", "BsmBI", "BspQI"):
+        g = gen.geometry_of(gen.enzyme(name))
+        words = ["".join(t) for t in itertools.product("ACGT", repeat=g.ov)]
+        nchunks = 4 if tier == "quick" else 32
+        for c in range(nchunks):
+            us.append(("words", (name, c, nchunks)))
     return us
 
 
@@ -122,6 +130,8 @@ def check(st, scn, expect=None):
 def run_unit(unit, st, tier):
     if unit[0] == "content":
         return unit_content(st, unit[1], tier)
+    if unit[0] == "words":
+        return unit_words(st, unit[1], tier)
     name, k, scheme, pj = unit[1]
     g = gen.geometry_of(gen.enzyme(name))
     base = asm.base_scenario(name, k, scheme=scheme, ovscheme=scheme, palindromic_junction=pj)
@@ -170,6 +180,10 @@ def run_unit(unit, st, tier):
     for p in perms[1:]:
         st.goal("non-identity-permutation")
         one(dict(base, perm=list(p)), True)
+    # bound 1: spelling -- each participant in lower case in turn, and all of them (sequences are sequences)
+    for low in [[j] for j in range(k + 1)] + [list(range(k + 1))]:
+        st.goal("lower-case-participant")
+        one(dict(base, lower=low), True)
     # bound 1: region lengths (and bound 2 with the rotation of the plasmid holding the region)
     for reg in regions(k):
         kind = reg.rstrip("0123456789")
@@ -267,6 +281,37 @@ def unit_content(st, arg, tier):
             st.nontrivial += 1
             st.goal("content-exhaustive")
     st.sample(dict(base, note="content-exhaustive family"))
+
+
+def unit_words(st, arg, tier):
+    """k = 1: every overhang word as the module's start (vector's downstream) and as its end (vector's upstream) overhang;
+    thorough: every ordered pair of words.  The overhang-graph model decides which assignments chain."""
+    name, c, nchunks = arg
+    g = gen.geometry_of(gen.enzyme(name))
+    base = asm.base_scenario(name, 1)
+    words = ["".join(t) for t in itertools.product("ACGT", repeat=g.ov)]
+    fixed0, fixed1 = base["ovs"]
+    if tier == "quick":
+        pairs = [(w, fixed1) for w in words] + [(fixed0, w) for w in words]
+    else:
+        pairs = [(a, b) for a in words for b in words]
+    for (o0, o1) in pairs[c::nchunks]:
+        model = rm.assembly_outcome(o1, o0, [(o0, o1)])
+        if model["kind"] != "product":
+            st.filtered += 1
+            continue
+        scn = dict(base, ovs=[o0, o1])
+        vec, mods = asm.pieces_to_plasmids(scn)
+        if any(rm.count_sites(p, g) != 2 for p in [vec] + mods) or not asm.well_formed(scn)[0]:
+            st.filtered += 1
+            continue
+        check(st, scn)
+        st.scenario("product", None)
+        st.nontrivial += 1
+        st.goal("every-overhang-word")
+        if o0 == rm.revcomp(o0) or o1 == rm.revcomp(o1):
+            st.goal("palindromic-junction")
+    st.sample(dict(base, note="overhang word sweep"))
 
 
 def extra_coverage(tier, st):
